@@ -124,4 +124,15 @@ CHECKS["C14"] = {
     "note": "The numeric bound itself is not a theorem (coverage.partial).",
     "technique": "Coq lemmas over source-regenerated expressions and model + adversarial-schedule oracle",
 }
+CHECKS["C10"] = {
+    "text": "Theorems (Coq) over CounterModel (one step per atomic site of counter.c incl. the one-object wait_n path, abstract counter_mu, "
+            "abstract semaphore, monotone clock; values/guards regenerated from the source), any threads/programs/schedules/clock: add's "
+            "successful CAS is its linearization point and the returned value is the abstract value right after it; value()/non-zero wait "
+            "results are values held during the call; wait returns 0 only if the value was 0 during the call and non-zero only after its "
+            "deadline; waiters queued => value != 0 while the lock is free, records removed at zero get waiting:=0 and a V; a wait that finds "
+            "0 at its first load performs no P.  Lock-step replay incl. returned values; linearizability search over scenario histories.",
+    "design_ref": "DESIGN.md section 4, C10",
+    "note": "Contract (no increment from zero once a waiter has waited) is the model's `broken` flag, excluded by hypothesis; no-stuck partial.",
+    "technique": "Coq inductive invariants over source-regenerated transition system + lock-step trace inclusion + linearizability oracle",
+}
 NOT_APPLICABLE = {}
